@@ -320,6 +320,28 @@ fn hash_of<T: Hash>(t: &T) -> u64 {
     h.finish()
 }
 
+/// hpbf's own hasher (the one every optimiser map keyed by a small vector uses). Unlike
+/// SipHash it is not a byte-stream hasher: `write(bytes)` and `write_u64` mix differently.
+#[allow(dead_code)]
+#[path = "/repo/src/hasher.rs"]
+mod repo_hasher;
+
+fn fast_hash_of<T: Hash>(t: &T) -> u64 {
+    use std::hash::BuildHasher;
+    let mut h = repo_hasher::FastHasherBuilder.build_hasher();
+    t.hash(&mut h);
+    h.finish()
+}
+
+/// Run `f`, which is expected to panic, without the panic message reaching stderr.
+fn panics<R>(f: impl FnOnce() -> R) -> bool {
+    let hook = std::panic::take_hook();
+    std::panic::set_hook(Box::new(|_| {}));
+    let r = std::panic::catch_unwind(std::panic::AssertUnwindSafe(f));
+    std::panic::set_hook(hook);
+    r.is_err()
+}
+
 fn run<T: Elem, const N: usize>(c: &SvecCheck, v: &mut Verdict) {
     let mut sv: Vec<Option<SmallVec<T, N>>> = (0..SLOTS).map(|_| None).collect();
     let mut model: Vec<Option<Vec<u8>>> = vec![None; SLOTS];
@@ -448,12 +470,29 @@ fn run<T: Elem, const N: usize>(c: &SvecCheck, v: &mut Verdict) {
                     if hash_of(a) != hash_of(&mv) {
                         bad!(i, "wrong-hash", "op {}: hash differs from the hash of a Vec with the same contents {:?}", i, m);
                     }
+                    // equal vectors hash equally whatever their representation and hasher
+                    let heap: SmallVec<T, N> = SmallVec::from_vec(mv.clone());
+                    let mut grown: SmallVec<T, N> = SmallVec::new();
+                    for x in m.iter() {
+                        grown.push(T::make(*x));
+                    }
+                    for (what, other) in [("built by from_vec", &heap), ("built by pushes", &grown)] {
+                        if a != other {
+                            bad!(i, "wrong-eq", "op {}: vector with contents {:?} is not equal to one {} with the same contents", i, m, what);
+                        }
+                        if fast_hash_of(a) != fast_hash_of(other) || hash_of(a) != hash_of(other) {
+                            bad!(i, "wrong-hash", "op {}: vector with contents {:?} and an equal one {} hash differently (std SipHash equal: {}, hpbf FastHasher equal: {})", i, m, what, hash_of(a) == hash_of(other), fast_hash_of(a) == fast_hash_of(other));
+                        }
+                    }
                 }
             }
             Op::Index(s, k) => {
                 if let (Some(a), Some(m)) = (&sv[*s], &model[*s]) {
                     if *k < m.len() && a[*k].val() != m[*k] {
                         bad!(i, "wrong-index", "op {}: [{}] is {} but should be {}", i, k, a[*k].val(), m[*k]);
+                    }
+                    if *k >= m.len() && !panics(|| a[*k].val()) {
+                        bad!(i, "index-past-len", "op {}: [{}] on a vector of length {} hands out an element (a Vec panics)", i, k, m.len());
                     }
                 }
             }
@@ -462,6 +501,13 @@ fn run<T: Elem, const N: usize>(c: &SvecCheck, v: &mut Verdict) {
                     if *k < m.len() {
                         a[*k] = T::make(*x);
                         m[*k] = *x;
+                    } else {
+                        // the new element is made first: if the store does not panic it is lost
+                        // or replaces a dead slot, which the drop ledger shows as well
+                        let e = T::make(*x);
+                        if !panics(move || a[*k] = e) {
+                            bad!(i, "index-past-len", "op {}: [{}] = x on a vector of length {} stores the element (a Vec panics)", i, k, m.len());
+                        }
                     }
                 }
             }
